@@ -1,5 +1,5 @@
 (* C07  Hash, MAC and core primitives equal their specifications.  Statements only. *)
-From Dryoc Require Import Impl.Hashes Refine.Blake2b Refine.Hashes Refine.GenTie.
+From Dryoc Require Import Spec.Poly1305 Impl.Poly1305 Impl.Hashes Refine.Blake2b Refine.Hashes Refine.GenTie Refine.Poly1305.
 Import Blake2bImpl HashesImpl.
 Open Scope Z_scope.
 
@@ -53,6 +53,32 @@ Theorem C07_gen_tables :
 Proof. exact blake2b_tables_tie. Qed.
 
 (* non-vacuity: RFC 7693 appendix A ("abc") through the implementation model *)
+(* crypto_onetimeauth (poly1305_soft.rs: 44/44/42-bit limbs, own buffering, carry / conditional
+   subtraction in finalize) is RFC 8439 Poly1305 for every 32-byte key and every message *)
+Theorem C07_poly1305 : forall key msg, length key = 32%nat -> wf_bytes key -> wf_bytes msg ->
+  onetimeauth key msg = Poly1305Spec.poly1305 key msg.
+Proof. exact mac_is_rfc. Qed.
+
+(* one block step on clamped r and carried h: the limb value follows ((acc + n) * r) mod p, the
+   limbs stay carried, and every u128 sum of the step stays below 2^92 (no checked operation can
+   overflow, every `as u64` is exact) *)
+Theorem C07_poly1305_block : forall r h m,
+  rinv r -> hinv h -> (let '(m0, m1, m2) := m in 0 <= m0 < 2 ^ 44 /\ 0 <= m1 < 2 ^ 44 /\ 0 <= m2 < 2 ^ 41) ->
+  hinv (core r h m) /\
+  val (core r h m) mod P = ((val h + val m) * val r) mod P /\
+  (let '(r0, r1, r2) := r in let '(h0, h1, h2) := h in let '(m0, m1, m2) := m in
+   let a0 := h0 + m0 in let a1 := h1 + m1 in let a2 := h2 + m2 in
+   a0 < 2 ^ 64 /\ a1 < 2 ^ 64 /\ a2 < 2 ^ 64 /\
+   a0 * r0 + a1 * (r2 * 20) + a2 * (r1 * 20) < 2 ^ 92 /\
+   a0 * r1 + a1 * r0 + a2 * (r2 * 20) < 2 ^ 91 /\
+   a0 * r2 + a1 * r1 + a2 * r0 < 2 ^ 90).
+Proof. exact core_spec. Qed.
+
+Theorem C07_poly1305_block_is_code : forall hibit r h m,
+  rinv r -> hinv h -> length m = 16%nat -> wf_bytes m -> (hibit = 0 \/ hibit = Z.shiftl 1 40) ->
+  Poly1305Impl.block_step hibit r h m = core r h (limbs (if hibit =? 0 then 0 else 2 ^ 40) m).
+Proof. exact block_step_core. Qed.
+
 Example C07_kat_blake2b :
   omap (firstn 8) (hash_c 64 [97; 98; 99] None) = Ok [0xba; 0x80; 0xa5; 0x3f; 0x98; 0x1c; 0x4d; 0x0d].
 Proof. vm_compute. reflexivity. Qed.
